@@ -13,6 +13,7 @@ from vf.core import Result
 
 PROP = "C03"
 LEVEL = "model_checking"
+ISOLATE_SHARDS = True  # call histories start from the import-time module state
 RULE = (
     "signals: ALL sequences of length 1..L over {-1,0,0.5,1} packed as columns of one 2-D call per length, plus three "
     "fixed longer records; x sr/fn in {4,12.5,100,2000} and the fn=0 branch x Q in {0.51,0.7071,10,50} x stype(6) x ic(4) "
@@ -401,9 +402,70 @@ def axes(tier):
     return ratios, Qs, L
 
 
+CALL_MENU = [  # (stype, ic, Q, frequency set, signal, time, peak)
+    ("absacce", "zero", 10.0, 0, 0, "primary", "abs"),
+    ("absacce", "zero", 10.0, 1, 0, "primary", "abs"),
+    ("absacce", "steady", 10.0, 0, 1, "total", "abs"),
+    ("relacce", "shift", 25.0, 1, 1, "primary", "pos"),
+    ("pvelo", "steady", 10.0, 2, 0, "residual", "abs"),
+    ("reldisp", "mshift", 10.0, 0, 1, "primary", "neg"),
+]
+_FREQSETS = [np.array([5.0, 12.0, 31.0]), np.array([10.0, 24.0, 62.0]), np.array([7.0, 9.0, 45.0])]
+
+
+def _menu_sigs():
+    k = np.arange(64)
+    return [np.sin(0.31 * k) + 0.2 * np.cos(1.3 * k) + 0.5, np.where(k % 7 < 3, 1.0, -0.5) * np.exp(-k / 40.0) + 0.25]
+
+
+def _menu_call(call, frq, sig):
+    from pyyeti import srs
+
+    stype, ic, Q, fi, si, tm, peak = call
+    return np.array(srs.srs(sig, 200.0, frq, Q, stype=stype, ic=ic, time=tm, peak=peak, rolloff="none", parallel="no"))
+
+
+def _menu_first(i):
+    call = CALL_MENU[i]
+    return _menu_call(call, _FREQSETS[call[3]].copy(), _menu_sigs()[call[4]].copy())
+
+
+def check_call_history(res, maxlen):
+    """K2 over the module: EVERY sequence of up to `maxlen` calls from a menu, made with ONE frequency array and
+    ONE signal array that the caller overwrites in place between calls (the documented use of ndarrays); each
+    result must be bit-identical to the same call made first in a pristine process"""
+    from vf.core import fresh_eval
+
+    msgs = []
+    first = [fresh_eval(_menu_first, i) for i in range(len(CALL_MENU))]
+    sigs = _menu_sigs()
+    for n in range(2, maxlen + 1):
+        for seq in itertools.product(range(len(CALL_MENU)), repeat=n):
+            frq = np.empty(3)
+            sig = np.empty(64)
+            res.traces += 1
+            for step, i in enumerate(seq):
+                call = CALL_MENU[i]
+                frq[:] = _FREQSETS[call[3]]
+                sig[:] = sigs[call[4]]
+                got = _menu_call(call, frq, sig)
+                res.transitions += 1
+                if not (np.array_equal(frq, _FREQSETS[call[3]]) and np.array_equal(sig, sigs[call[4]])):
+                    msgs.append((list(seq), "srs modified its input arrays (call %d of history %s)" % (step + 1, list(seq))))
+                    break
+                if got.shape != first[i].shape or got.tobytes() != first[i].tobytes():
+                    msgs.append((list(seq), "call %d of the history %s (menu entry %s, inputs written in place into reused arrays) returns a different spectrum than the same call made first in a fresh process: max diff %.3g"
+                                 % (step + 1, list(seq), (call,), np.abs(got - first[i]).max() if got.shape == first[i].shape else float("nan"))))
+                    break
+            if len(msgs) > 5:
+                return msgs
+    res.states += len(CALL_MENU) ** maxlen
+    return msgs
+
+
 def shards(tier, seed):
     ratios, Qs, L = axes(tier)
-    out = []
+    out = [dict(part="callhist", maxlen=2 if tier == "quick" else 3, tier=tier)]
     for ratio, Q, stype in itertools.product(ratios, Qs, STYPES):
         out.append(dict(part="hist", ratio=ratio, Q=Q, stype=stype, L=L, tier=tier))
     for ratio in (4.0, 100.0):
@@ -455,6 +517,11 @@ def run_shard(sh):
         for m in check_invariants(sig, sh["ratio"], sh["Q"], res):
             res.viol(dict(part="inv", ratio=sh["ratio"], Q=sh["Q"], tier=tier), m, kind="inv-" + m.split(":")[-1][:25])
         res.sample(dict(part="inv", ratio=sh["ratio"], Q=sh["Q"]))
+    elif sh["part"] == "callhist":
+        for seq, m in check_call_history(res, sh["maxlen"]):
+            res.viol(dict(part="callhist", maxlen=sh["maxlen"], seq=seq, tier=tier), m, kind="callhist")
+        res.ev("callhist", n=0)
+        res.sample(dict(sh))
     elif sh["part"] == "rolloff":
         for m in check_rolloff(res):
             res.viol(dict(part="rolloff", tier=tier), m, kind="roll-" + m.split()[0])
@@ -476,6 +543,8 @@ def replay(case):
         return check_hist(sig, case["ratio"], case["Q"], case["stype"], case["ic"], case["time"], case["fv"], res)
     if case["part"] == "inv":
         return check_invariants(signals(3), case["ratio"], case["Q"], res)
+    if case["part"] == "callhist":
+        return [m for seq, m in check_call_history(res, case["maxlen"])]
     if case["part"] == "rolloff":
         return check_rolloff(res)
     return check_frf_vrs(res)
